@@ -140,7 +140,8 @@ def report(prop, args, seed, t0, results, cmod, bounded):
     bounded_viol = []
     if bounded and bounded.get("violations"):
         for v in bounded["violations"]:
-            kf = next((k for k in known if k.get("bounded_id") and k["bounded_id"] == v.get("id")), None)
+            kf = next((k for k in known if k.get("bounded_id") and k["bounded_id"] == v.get("id")
+                       and k.get("bounded_detail", "") in (v.get("detail") or "")), None)
             if kf is not None:
                 known_hits.append((kf, {"name": v.get("id"), "status": "bounded-fail"}))
             else:
